@@ -60,7 +60,7 @@ func dataFiles(dir, baseName string) []string {
 	ents, _ := os.ReadDir(dir)
 	type f struct {
 		p, date string
-		n      int
+		n       int
 	}
 	var fs []f
 	for _, e := range ents {
@@ -198,6 +198,51 @@ func runCase(caseIdx int, c *caseDesc, rng *rand.Rand) {
 		return
 	}
 	baseName := metric.FormMetricFileName(app, false)
+	long, err := metric.NewDefaultMetricSearcher(dir, baseName)
+	if err != nil {
+		fail("searcher-create-error", err.Error())
+		return
+	}
+	// midQuery: a query on the long-lived searcher BETWEEN writes (its cached position may point into a file
+	// that later rolls / retention removes), checked against the files retained at that moment
+	midQuery := func(i int, accepted []rec) bool {
+		files := dataFiles(dir, baseName)
+		var lines []string
+		for _, f := range files {
+			b, _ := os.ReadFile(f)
+			for _, l := range strings.Split(string(b), "\n") {
+				if l != "" {
+					lines = append(lines, l)
+				}
+			}
+		}
+		if len(lines) == 0 || len(lines) > len(accepted) {
+			return true
+		}
+		ret := accepted[len(accepted)-len(lines):]
+		e := &expectation{retained: ret}
+		first, last := ret[0].sec, ret[len(ret)-1].sec
+		b := (first + uint64(rng.Int63n(int64(last-first)+1))) * 1000
+		want := e.byTime(b, (last+1)*1000, "")
+		var got []string
+		var qerr error
+		if run.Guard("C17/panic-in-search", c, func() {
+			a, e2 := long.FindByTimeAndResource(b, (last+1)*1000, "")
+			got, qerr = fats(a), e2
+		}) {
+			return false
+		}
+		if qerr != nil {
+			fail("search-error:between-writes", fmt.Sprintf("after write %d, FindByTimeAndResource(%d,..) on the long-lived searcher returned an error: %v", i, b, qerr))
+			return false
+		}
+		if !eq(got, want) {
+			fail("reused-searcher-result(between-writes)", fmt.Sprintf("after write %d, FindByTimeAndResource(%d,%d,\"\") on the long-lived searcher returned %d items, the retained files hold %d matching ones: got %v want %v", i, b, (last+1)*1000, len(got), len(want), trunc(got), trunc(want)))
+			return false
+		}
+		run.Count("queries_between_writes", 1)
+		return true
+	}
 	var accepted []rec
 	latest := c.T0 / 1000
 	tsec := c.T0 / 1000
@@ -225,6 +270,9 @@ func runCase(caseIdx int, c *caseDesc, rng *rand.Rand) {
 			for _, it := range items {
 				accepted = append(accepted, rec{fat: fatOf(it), sec: it.Timestamp / 1000, res: it.Resource})
 			}
+		}
+		if rng.Intn(4) == 0 && !midQuery(i, accepted) {
+			return
 		}
 		if fs := dataFiles(dir, baseName); uint32(len(fs)) > c.MaxFiles {
 			fail("file-count-exceeds-max", fmt.Sprintf("after write %d there are %d metric log files, configured maximum %d", i, len(fs), c.MaxFiles))
@@ -264,11 +312,6 @@ func runCase(caseIdx int, c *caseDesc, rng *rand.Rand) {
 	}
 	firstSec, lastSec := exp.retained[0].sec, exp.retained[len(exp.retained)-1].sec
 	// ---- queries on one long-lived searcher, each cross-checked on a fresh one
-	long, err := metric.NewDefaultMetricSearcher(dir, baseName)
-	if err != nil {
-		fail("searcher-create-error", err.Error())
-		return
-	}
 	span := lastSec - firstSec + 1
 	nq := 6 + rng.Intn(10)
 	for q := 0; q < nq; q++ {
@@ -517,7 +560,7 @@ func main() {
 	sx.Quiet()
 	run = vk.Start("C17", "seq")
 	defer run.Finish()
-	run.Rule("case = (max file size 200 B - 4 KB, max files 1-5, start time incl. shortly before midnight, 8-48 per-second batches of 1-5 items with repeated / skipped / stale seconds); after every write the file count bound; retained files must be a byte-identical suffix of the accepted writes; 6-15 queries (by time and resource, from time with line limit) on ONE searcher and on fresh searchers vs. the expectation computed from the retained items; then the last data file and its index are cut at byte k on a copy (quick: every offset of the last 3 lines / 3 index entries + sampled offsets; thorough: every offset) and a fresh searcher must not fail, must return only written items and every item wholly before the cut. distinct = cases with at least one retained item.")
+	run.Rule("case = (max file size 200 B - 4 KB, max files 1-5, start time incl. shortly before midnight, 8-48 per-second batches of 1-5 items with repeated / skipped / stale seconds); after every write the file count bound; retained files must be a byte-identical suffix of the accepted writes; queries on ONE long-lived searcher - interleaved with the writes (so that its cached position can point into files that later roll or are removed by retention) and 6-15 more afterwards (by time and resource, from time with line limit) - and on fresh searchers vs. the expectation computed from the retained items; then the last data file and its index are cut at byte k on a copy (quick: every offset of the last 3 lines / 3 index entries + sampled offsets; thorough: every offset) and a fresh searcher must not fail, must return only written items and every item wholly before the cut. distinct = cases with at least one retained item.")
 	run.Assume("resource names contain no '|' or line break", "the process time zone is the one the writer reads through util.Now()", "virtual clock via util.SetClock")
 	clk = vclock.New(1900000000000)
 	scratch = os.Getenv("VERIF_SCRATCH_DIR")
